@@ -1,14 +1,16 @@
 (* C14 — Subregions always stay inside, aligned with and measured in cells of their mesh.
    ONLY statements, each closed by [exact] of a lemma proved in proofs/, followed by
    Print Assumptions. *)
-From DF Require Import Prelude Constants_gen Region Mesh Subregions C14_setter.
+From DF Require Import Prelude Constants_gen Region Mesh Subregions
+  C01_axis C14_setter C14_lattice C14_axis C14_findings.
 Open Scope Q_scope.
 
-(* the setter accepts a dictionary iff every candidate passes the inside / whole-cell / lattice tests *)
-Theorem C14_accept_iff_tests : forall (tol : Q) (m : mesh) (l : list (string * region)),
+(* ---------- the setter ---------- *)
+(* accepted iff every candidate passes the inside / whole-cell / lattice tests *)
+Theorem C14_accept_iff : forall (tol : Q) (m : mesh) (l : list (string * region)),
   is_ok (set_subregions_tol tol m l) = true <-> Forall (fun nr => sub_ok tol m (snd nr) = true) l.
 Proof. exact accept_iff. Qed.
-Print Assumptions C14_accept_iff_tests.
+Print Assumptions C14_accept_iff.
 
 (* rejected candidates leave the previous dictionary (and the whole mesh) in place *)
 Theorem C14_rejected_keeps_previous : forall (tol : Q) (m : mesh) (l : list (string * region)),
@@ -16,7 +18,7 @@ Theorem C14_rejected_keeps_previous : forall (tol : Q) (m : mesh) (l : list (str
 Proof. exact rejected_keeps. Qed.
 Print Assumptions C14_rejected_keeps_previous.
 
-(* accepted candidates are held in order with their own corners and the mesh's dims / units *)
+(* accepted candidates are held in order with their own corners and the mesh's dims / units / tolerance *)
 Theorem C14_accepted_recreated : forall (tol : Q) (m : mesh) (l : list (string * region)),
   is_ok (set_subregions_tol tol m l) = true ->
   let m' := assign_tol tol m l in
@@ -28,3 +30,99 @@ Theorem C14_accepted_recreated : forall (tol : Q) (m : mesh) (l : list (string *
                     tf (snd nr) = tf (reg m)) (subs m').
 Proof. exact accepted_holds. Qed.
 Print Assumptions C14_accepted_recreated.
+
+(* ---------- the remainder test (shared by is_aligned and the whole-cell test) ---------- *)
+(* passes iff the length is within the tolerance of a whole number of cells *)
+Theorem C14_remainder_test : forall tol c e : Q, 0 < c ->
+  bad_rem tol c e = false <-> exists k : Z, Qabs (e - inject_Z k * c) <= tol.
+Proof. exact bad_rem_false_iff. Qed.
+Print Assumptions C14_remainder_test.
+
+(* ---------- Mesh.is_aligned ---------- *)
+(* aligned iff the cell sizes agree (numpy.allclose, rtol 1e-5, atol = tolerance) and both corner
+   differences are whole numbers of cells up to the tolerance, on every axis *)
+Theorem C14_aligned_iff : forall (m o : mesh), wf_mesh m ->
+  length (pmin (reg o)) = length (pmin (reg m)) -> length (pmax (reg o)) = length (pmin (reg m)) ->
+  forall tol : Q,
+  is_aligned_tol tol m o = true <->
+  (length (cell m) = length (cell o) /\
+   forall a, (a < length (pmin (reg m)))%nat ->
+     Qabs (nth a (cell m) 0 - nth a (cell o) 0) <= tol + align_rtol * Qabs (nth a (cell o) 0)) /\
+  (forall a, (a < length (pmin (reg m)))%nat ->
+     near_multiple tol (nth a (cell m) 0) (Qabs (nth a (pmin (reg m)) 0 - nth a (pmin (reg o)) 0))) /\
+  (forall a, (a < length (pmin (reg m)))%nat ->
+     near_multiple tol (nth a (cell m) 0) (Qabs (nth a (pmax (reg m)) 0 - nth a (pmax (reg o)) 0))).
+Proof. exact aligned_iff. Qed.
+Print Assumptions C14_aligned_iff.
+
+(* the hypothesis the criterion needs to mean "whole cells": with 2*tolerance < cell the number of
+   cells is unique and a half-cell shift is rejected ... *)
+Theorem C14_aligned_whole_cells_unique : forall (tol c e : Q) (k1 k2 : Z), 0 < c -> 2 * tol < c ->
+  Qabs (e - inject_Z k1 * c) <= tol -> Qabs (e - inject_Z k2 * c) <= tol -> k1 = k2.
+Proof. exact near_multiple_unique. Qed.
+Print Assumptions C14_aligned_whole_cells_unique.
+
+Theorem C14_half_cell_shift_rejected : forall (tol c : Q) (j : Z), 0 < c -> 0 <= tol -> 2 * tol < c ->
+  bad_rem tol c (inject_Z j * c + c / 2) = true.
+Proof. exact half_cell_off. Qed.
+Print Assumptions C14_half_cell_shift_rejected.
+
+Example C14_half_cell_shift_rejected_nonvacuous : 0 < 1 /\ 0 <= align_tol /\ 2 * align_tol < 1.
+Proof. unfold align_tol. repeat split; lra. Qed.
+
+Theorem C14_whole_cells_pass : forall (tol c : Q) (k : Z), 0 < c -> 0 <= tol ->
+  bad_rem tol c (inject_Z k * c) = false.
+Proof. exact whole_cells_pass. Qed.
+Print Assumptions C14_whole_cells_pass.
+
+(* ... and without it the test is blind: every offset passes (cells <= 2e-12 with the default 1e-12) *)
+Theorem C14_blind_below_two_tolerances : forall tol c e : Q, c <= 2 * tol -> bad_rem tol c e = false.
+Proof. exact blind_when_tol_half_cell. Qed.
+Print Assumptions C14_blind_below_two_tolerances.
+
+(* "aligned exactly when the origins differ by whole cells" is therefore refuted by the faithful model:
+   1e-12 cells, origin shifted by half a cell, reported aligned; the shifted box is attached
+   (known finding C14-abs-tolerance) *)
+Theorem C14_aligned_exact_refuted :
+  exists m o : mesh, wf_mesh m /\ wf_mesh o /\ is_aligned m o = true /\
+    nth 0 (cell m) 0 == nth 0 (cell o) 0 /\
+    nth 0 (pmin (reg o)) 0 - nth 0 (pmin (reg m)) 0 == (1 # 2) * nth 0 (cell m) 0.
+Proof. exact aligned_exact_refuted. Qed.
+Print Assumptions C14_aligned_exact_refuted.
+
+Theorem C14_setter_exact_refuted :
+  exists (m : mesh) (r : region), wf_mesh m /\
+    is_ok (set_subregions m [("a"%string, r)]) = true /\
+    nth 0 (pmin r) 0 - nth 0 (pmin (reg m)) 0 == (1 # 2) * nth 0 (cell m) 0.
+Proof. exact setter_refuted. Qed.
+Print Assumptions C14_setter_exact_refuted.
+
+(* ---------- subregions made of whole cells of the mesh (one axis) ---------- *)
+(* a box that consists of the cells j1 .. j2-1 passes all three tests of the setter for every
+   tolerance setting, is counted as j2-j1 cells, and its extracted mesh has the parent's cell
+   (mesh[name]: region = the subregion by construction, cell = parent cell) *)
+Theorem C14_partial_accept_and_extract_axis : forall (lo hi : Q) (k : Z), lo < hi -> (0 < k)%Z ->
+  forall slo shi : Q, ax_inv lo hi k slo shi ->
+  forall rtol atol tolc tol : Q, 0 <= rtol -> 0 <= atol -> 0 <= tolc -> 0 <= tol ->
+  let c := (hi - lo) / inject_Z k in
+  contains1 rtol atol lo hi slo = true /\ contains1 rtol atol lo hi shi = true /\
+  contains1 rtol atol slo shi (slo + c) = true /\
+  bad_rem tolc c (shi - slo) = false /\
+  (exists j : Z, (0 < j <= k)%Z /\ Qround_half_even ((shi - slo) / c) = j /\ (shi - slo) / inject_Z j == c) /\
+  off_lattice tol c (lo - slo) = false /\ off_lattice tol c (hi - shi) = false.
+Proof. exact exact_accepted. Qed.
+Print Assumptions C14_partial_accept_and_extract_axis.
+
+Example C14_ax_inv_nonvacuous : ax_inv 0 4 4 1 3.
+Proof. exists 1%Z, 3%Z. split; [lia|]. split; reflexivity. Qed.
+
+(* the whole-cell form is preserved by every affine map x -> a*x + b with a <> 0 applied to mesh and
+   subregion alike, corners re-ordered: translate (a = 1), scale about a reference point
+   (a = factor, b = ref*(1 - factor), also negative factors), the axis maps of rotate90 (a = +-1) *)
+Theorem C14_partial_inv_preserved_axis : forall (lo hi : Q) (k : Z), lo < hi -> (0 < k)%Z ->
+  forall slo shi : Q, ax_inv lo hi k slo shi ->
+  forall a b : Q, ~ a == 0 ->
+  ax_inv (Qmin (a * lo + b) (a * hi + b)) (Qmax (a * lo + b) (a * hi + b)) k
+         (Qmin (a * slo + b) (a * shi + b)) (Qmax (a * slo + b) (a * shi + b)).
+Proof. exact affine_inv. Qed.
+Print Assumptions C14_partial_inv_preserved_axis.
